@@ -21,7 +21,7 @@ def run(ctx):
     s3 = core.absorb(ctx, ctx.harness(["c14-drive", "-trace", tr, "-n", "300" if q else "3000"]))
     ctx.validate_traces_all("AnnexBTrace", "AnnexBTrace.cfg", tr, what="AnnexBTrace.tla rejected a recorded scan/convert execution")
     ctx.cov["bounds"] = {"design": "all streams over {00,01,other} up to length %d, word size 4" % (10 if q else 13),
-                         "windows": "all windows over {00,01,other}^%d at alignments 0..15, real word size 8" % (6 if q else 8),
+                         "windows": "all windows over {00,01,other}^%d at alignments 0..15 inside filler and at the very end of the stream (every length mod 8), real word size 8" % (6 if q else 8),
                          "units": "1..%d NAL units, AVC and HEVC types, lengths around word boundaries, 3/4-byte start codes, zero/escape content classes" % (2 if q else 3),
                          "trace_events": s3["extra"]["events"]}
     ctx.cov["rule"] = ("behaviours = reachable states of AnnexB.tla in windows/units mode; non-trivial = at least one start code; "
